@@ -79,6 +79,8 @@ type Path struct {
 	notes     []string
 	infeasibleAssume bool
 	endKind   string
+	curInstr  ssa.Instruction
+	lastPanic string
 	endMsg    string
 	stepLimitObligation bool
 	onceDone  map[*value]bool
